@@ -626,6 +626,16 @@ func AppMsg(a tr.M) *quickfix.Message {
 	if tr.Bool(a, "ref") {
 		m.Body.SetString(quickfix.Tag(9003), "ref")
 	}
+	if tr.Bool(a, "grp") {
+		// a repeating group as the last part of the body (453 sorts after 11 and 55)
+		g := quickfix.NewRepeatingGroup(quickfix.Tag(453), quickfix.GroupTemplate{
+			quickfix.GroupElement(quickfix.Tag(448)), quickfix.GroupElement(quickfix.Tag(447)), quickfix.GroupElement(quickfix.Tag(452))})
+		e := g.Add()
+		e.SetString(quickfix.Tag(448), "P1")
+		e.SetString(quickfix.Tag(447), "D")
+		e.SetString(quickfix.Tag(452), "1")
+		m.Body.SetGroup(g)
+	}
 	return m
 }
 
@@ -690,7 +700,12 @@ func (d *Driver) Step(ev tr.M) (row tr.M) {
 		case "Flush":
 			d.V.SendAppMessages()
 		case "Send":
-			err := d.V.Send(AppMsg(tr.Map(ev, "a")))
+			a := tr.Map(ev, "a")
+			if tr.Str(d.Cfg, "dd") != "" {
+				// with a dictionary configured the application messages carry a repeating group
+				a = tr.M{"x": a["x"], "dns": a["dns"], "ref": a["ref"], "grp": true}
+			}
+			err := d.V.Send(AppMsg(a))
 			row["sendErr"] = err != nil
 		case "TimeTick":
 			// the ticker's schedule check with an instant in the current window, outside any window, or in
